@@ -108,7 +108,10 @@ func (d *While) Evaluation(
 			continue
 		}
 
+		// statement modifier (x += 1 while x < 3): the line break ends the
+		// statement and is left for the caller, which closes the expression
 		if isParsingExpr && nextT.IsNewLineIdentifier() {
+			p.Unget()
 			break
 		}
 
